@@ -1877,6 +1877,12 @@ def handle(job):
 
 def main():
     signal.signal(signal.SIGALRM, _alarm)
+    try:
+        # die with the harness process (a killed check must not leave workers behind)
+        import ctypes
+        ctypes.CDLL("libc.so.6").prctl(1, signal.SIGKILL)
+    except Exception:
+        pass
     real_stdout = sys.stdout
     if os.environ.get("POLAR_WORKER_STREAM"):
         # one JSON job per line on stdin
